@@ -6,6 +6,14 @@ MANGLE_DELIM = "X"
 normalizes_to_underscore = "_︳︴﹍﹎﹏＿"
 
 
+def _keeps_delim(c):
+    """True if `c` can stay unescaped in a `hyx_` name: the NFKC normalization
+    applied at the end must neither turn it into the delimiter nor merge it
+    with a preceding delimiter, or `unmangle` would misread the escapes."""
+    n = unicodedata.normalize("NFKC", MANGLE_DELIM + c)
+    return n.startswith(MANGLE_DELIM) and MANGLE_DELIM not in n[1:]
+
+
 def mangle(s):
     """Stringify the argument (with :class:`str`, not :func:`repr` or
     :hy:func:`hy.repr`) and convert it to a valid Python identifier according
@@ -48,7 +56,7 @@ def mangle(s):
         # Replace illegal characters with their Unicode character
         # names, or hexadecimal if they don't have one.
         s = "hyx_" + "".join(
-            c if c != MANGLE_DELIM and ("S" + c).isidentifier()
+            c if ("S" + c).isidentifier() and _keeps_delim(c)
             # We prepend the "S" because some characters aren't
             # allowed at the start of an identifier.
             else "{0}{1}{0}".format(
